@@ -23,6 +23,13 @@ OFFSET_GRID = [(h, 0) for h in range(-4, 5)] + [
     (-12, 0)]
 
 
+def huge_year(rng):
+    """years beyond the integers a float holds exactly (and their leap /
+    century / week-53 variety)"""
+    return rng.choice((1, -1)) * (rng.choice((10 ** 16, 2 ** 53, 10 ** 18))
+                                  + rng.randrange(0, 401))
+
+
 def rand_year(rng, lo=-9999, hi=12000):
     if rng.random() < 0.55:
         y = rng.choice(YEAR_POOL)
